@@ -27,6 +27,11 @@ CLAIMS = {
          "All 779 (precision, scale) pairs x signs x boundary magnitudes are enumerated; random digit strings, text variants, unrepresentable inputs (per root-cause class) and invalid constructions are generated; String() is compared with the exact expansion of u/10^scale, SetString with exact rational arithmetic, rejected input must leave the decimal unchanged.",
          "Variants whose acceptance the documentation does not promise ('+', surrounding spaces, '.5', '5.', zero digits beyond the scale) are tolerated: exact if accepted, otherwise error and unchanged. Precision 0 is not judged (the library itself constructs NewDecimal(0,0)).",
          "DESIGN.md section 3, C16"),
+ "C17": ("exploration",
+         "rapid struct generators + round trip Parse(Format(v)) oracle, override/unknown-key metamorphic checks, exhaustive small-alphabet string enumeration and native go fuzzing for parser totality",
+         "Generated dsn.Info / tds.Info / embedded harness structs are formatted and parsed back in both forms and compared field by field; override order and unknown keys are checked on generated key sequences; every string up to length 5/6 over a 14-symbol alphabet of quotes, spaces, '=', letters and URI metacharacters (plus key=-prefixed and quote-heavy strings up to length 8/10) is fed to all three parsers, which must return a value or an error, never panic; FuzzParse continues the search coverage-guided in the thorough tier.",
+         "Host is a DNS label and port numeric or empty (the property claims nothing about arbitrary text there); the simple-form alphabet is strconv.IsPrint minus quotes, backslash and backtick; documented routing of Parse by '://' is respected.",
+         "DESIGN.md section 3, C17"),
  "C18": ("exploration",
          "rapid sequential state machine against a live-id-set model + generated concurrent programs (1..64 goroutines, GOMAXPROCS 1/4/16, forced GCs) under the race detector with an online uniqueness monitor that is sound under every schedule",
          "Sequential histories are checked against a set-of-live-ids model (id != 0, not live, text = format(id) by own formatting, cleared after release, double/nil release harmless); concurrent programs run against one pool with a monitor that inserts after Acquire returns and removes before Release is called, so any duplicate it sees is a real simultaneous holding; data races are reported by the race detector.",
